@@ -22,11 +22,13 @@ func init() {
 			"(R6) lock pairing over the functions statically reachable from api.(*DatabaseAPI).Handle, api.MarshalRecord: " + lockRuleText + ". " +
 			"(R7) Record.Marshal yields no data for a deleted record before any other rejection (processSub marshals before it looks at the deleted flag, so the del notification depends on it; shared with C08-R7). " +
 			"(R8) error discipline over the database API (api/database.go): " + repoErrText + ". " +
+			"(R9) in the subscription feed a deleted record is announced as del before any other classification: the new/upd replies are reachable only for records that are not deleted; " +
 			"NOT decided: absence of other panics for arbitrary messages, wedging, content preservation of written records.",
 		Rules: []ruleFn{c13R1, c13R2, c13R3, func(c *Ctx, r *Report) { subscriptionFeedRule(c, r, "C13-R4") }, c13R5,
 			lockRuleFor("C13-R6", 15, []string{}, []string{"api.(*DatabaseAPI).Handle", "api.MarshalRecord"}, map[string]string{}),
 			func(c *Ctx, r *Report) { deletedFirstRule(c, r, "C13-R7") },
-			repoErrRuleFor("C13-R8", 15, func(c *Ctx, fn *ssa.Function) bool { return short(fn.Pkg.Pkg.Path()) == "api" && inFile(c, fn, "api/database.go") }, map[string]string{"api.(*DatabaseAPI).processSub / database.Subscription.Cancel": "cancel at API shutdown is best effort; the feed is abandoned either way", "api.(*DatabaseWebsocketAPI).handler$1 / api.DatabaseWebsocketAPI.shutdown": "shutdown only returns the error it was given or a stop sentinel for the worker", "api.(*DatabaseWebsocketAPI).writer$1 / api.DatabaseWebsocketAPI.shutdown": "shutdown only returns the error it was given or a stop sentinel for the worker"})},
+			repoErrRuleFor("C13-R8", 15, func(c *Ctx, fn *ssa.Function) bool { return short(fn.Pkg.Pkg.Path()) == "api" && inFile(c, fn, "api/database.go") }, map[string]string{"api.(*DatabaseAPI).processSub / database.Subscription.Cancel": "cancel at API shutdown is best effort; the feed is abandoned either way", "api.(*DatabaseWebsocketAPI).handler$1 / api.DatabaseWebsocketAPI.shutdown": "shutdown only returns the error it was given or a stop sentinel for the worker", "api.(*DatabaseWebsocketAPI).writer$1 / api.DatabaseWebsocketAPI.shutdown": "shutdown only returns the error it was given or a stop sentinel for the worker"}),
+			c13R9},
 	})
 }
 
@@ -462,4 +464,27 @@ func c13R5(c *Ctx, r *Report) {
 	r.SetFloor(rule, 1)
 	boundsRule(c, r, rule, "handling an arbitrary database-API message",
 		"api.(*DatabaseAPI).Handle")
+}
+
+func c13R9(c *Ctx, r *Report) {
+	const rule = "C13-R9"
+	r.SetFloor(rule, 2)
+	fn := c.Func("api.(*DatabaseAPI).processSub")
+	if fn == nil {
+		r.Undecided(rule, "api.(*DatabaseAPI).processSub", "anchor function missing")
+		return
+	}
+	notDeleted := callGuard("IsDeleted()==false", false, "database/record.Meta.IsDeleted")
+	for _, ci := range callsIn(fn, "api.DatabaseAPI.send") {
+		a := ci.Common().Args
+		cst, ok := a[2].(*ssa.Const)
+		if !ok || cst.Value == nil || cst.Value.Kind() != constant.String {
+			continue
+		}
+		mt := constant.StringVal(cst.Value)
+		if mt != "new" && mt != "upd" {
+			continue
+		}
+		c.RequireGuards(r, rule, fnKey(fn)+" / reply "+mt, fn, ci, notDeleted)
+	}
 }
